@@ -15,7 +15,12 @@ def dom_from_forest(forest, fragment=False):
                 if ans:
                     el.setAttributeNS(ans, "p%d:%s" % (sum(map(ord, ans)) % 997, an), v)
                 else:
-                    el.setAttribute(an, v)
+                    # as AttrList.__setitem__ of the DOM tree builder does when attributes are merged into an existing
+                    # element: keeps two attributes without namespace that agree after the first colon (href,
+                    # xlink:href), which setAttribute would collapse -- such forests do come out of the parser
+                    a = doc.createAttribute(an)
+                    a.value = v
+                    el.attributes[an] = a
             for c in n[4]:
                 el.appendChild(build(c))
             return el
